@@ -12,6 +12,8 @@ import (
 	"reflect"
 	"sort"
 	"strings"
+	"sync"
+	"unsafe"
 
 	"golang.org/x/crypto/ssh"
 )
@@ -194,5 +196,74 @@ func MapSizes(v any) []int {
 			out = append(out, rv.Field(i).Len())
 		}
 	}
+	return out
+}
+
+// LocksHeld walks v (pointers, structs, arrays, slices of structs; depth-bounded) and reports every sync.Mutex /
+// sync.RWMutex field that cannot be acquired right now. Call it only when nothing else can legitimately hold them (a
+// single-threaded phase, after an operation returned): a held lock is then a lock some call forgot to release, and the next
+// caller would block for ever. Fields are found by type; no identifier of the code under test is named.
+func LocksHeld(v any) []string {
+	var out []string
+	seen := map[uintptr]bool{}
+	var walk func(rv reflect.Value, path string, depth int)
+	walk = func(rv reflect.Value, path string, depth int) {
+		if depth > 6 || !rv.IsValid() {
+			return
+		}
+		switch rv.Kind() {
+		case reflect.Ptr, reflect.Interface:
+			if rv.IsNil() {
+				return
+			}
+			if rv.Kind() == reflect.Ptr {
+				if seen[rv.Pointer()] {
+					return
+				}
+				seen[rv.Pointer()] = true
+			}
+			walk(rv.Elem(), path, depth+1)
+		case reflect.Struct:
+			t := rv.Type()
+			if t.PkgPath() == "sync" && rv.CanAddr() {
+				p := unsafe.Pointer(rv.UnsafeAddr())
+				switch t.Name() {
+				case "Mutex":
+					m := (*sync.Mutex)(p)
+					if m.TryLock() {
+						m.Unlock()
+					} else {
+						out = append(out, path+" (sync.Mutex)")
+					}
+				case "RWMutex":
+					m := (*sync.RWMutex)(p)
+					if m.TryLock() {
+						m.Unlock()
+					} else {
+						out = append(out, path+" (sync.RWMutex)")
+					}
+				}
+				return
+			}
+			if strings.HasPrefix(t.PkgPath(), "sync") || strings.HasPrefix(t.PkgPath(), "crypto") || strings.HasPrefix(t.PkgPath(), "math") || strings.HasPrefix(t.PkgPath(), "net") {
+				return
+			}
+			for i := 0; i < rv.NumField(); i++ {
+				walk(rv.Field(i), path+"."+t.Field(i).Name, depth+1)
+			}
+		case reflect.Array, reflect.Slice:
+			if rv.Len() > 64 || rv.Len() == 0 {
+				return
+			}
+			k := rv.Type().Elem().Kind()
+			if k != reflect.Struct && k != reflect.Ptr && k != reflect.Interface {
+				return
+			}
+			for i := 0; i < rv.Len(); i++ {
+				walk(rv.Index(i), fmt.Sprintf("%s[%d]", path, i), depth+1)
+			}
+		}
+	}
+	walk(reflect.ValueOf(v), reflect.TypeOf(v).String(), 0)
 	return out
 }
